@@ -43,7 +43,9 @@ class C13(Prop):
             res.violation('drop and replace policies differ beyond the HTML elements', case, {'drop': outs[1], 'replace': outs[2]})
             return
         # each hole of the escape output is the escaped text of an element: starts with &lt; and has no raw < or >
-        pat = '(?:&lt;[^<>]*?)'.join(re.escape(s) for s in segs)
+        # (an inclusion / exclusion macro can delete every line of an HTML block: its text, and so its escaped text, is empty)
+        hole = '(?:&lt;[^<>]*?)?' if re.search(r'\{[\w-]+[!=]', case['src']) else '(?:&lt;[^<>]*?)'
+        pat = hole.join(re.escape(s) for s in segs)
         if not re.fullmatch(pat, nonl(outs[3]), re.S):
             res.violation('escape and replace policies differ beyond the HTML elements', case, {'escape': outs[3], 'replace': outs[2]})
             return
@@ -318,7 +320,7 @@ class C19(Prop):
                 if rng.random() < 0.35:
                     block = block.split('\n')[0]           # the opening delimiter is the last line of the document
                 if rng.random() < 0.25:
-                    block = '..box\n%s\n..' % block         # ... or of an enclosing (closed) container
+                    block = '......box\n%s\n......' % block  # ... or of an enclosing (closed) container with its own delimiter
                 parts.append(block)
                 expect = 'unterminated %s block' % name
             elif f == 'undefined-macro':
@@ -817,7 +819,9 @@ class C02(Prop):
     def corpus(self, ctx):
         out = []
         for src in ["{m} = '{m|$1 $1}'\n{m|a}", "{v1}='$1 $2'{v2}='{v1|1|2>>} $1 $+2'\n{v2|3|4} {v1|5|6}",
-                    "{a} = '{b|$1.}'\n{b} = '{a|$1.}'\n{a|x}", "{m} = '{m|$1 x}\n{m|$1 y}'\n{m|a}", "{m} = 'x\n{m}'\n{m}"]:
+                    "{a} = '{b|$1.}'\n{b} = '{a|$1.}'\n{a|x}", "{m} = '{m|$1 x}\n{m|$1 y}'\n{m|a}", "{m} = 'x\n{m}'\n{m}",
+                    # a sibling expansion before the recursive invocation (the end of the outer expansion must move with it)
+                    "{m} = '{leaf}\n{m|$1 x}'\n{leaf} = '# L'\n{m|a}", "{m} = '{leaf}\n// c\n{m|$1 x}\n# t'\n{leaf} = '# L\n## M'\n{m|a}"]:
             out.append({'kind': 'macro', 'src': src, 'safeMode': 0, 'must_finish': True})
         size = 4096 if ctx.tier == 'quick' else 8192
         for unit in ['<a|', '<a@b|', '<image:a|']:
@@ -854,14 +858,30 @@ class C02(Prop):
                 lead = rng.choice(['', '', 'x ', '.', '- '])
                 yield {'kind': 'pump', 'src': lead + pump.build(prefix, unit, suf, size) + '\nnext line', 'safeMode': rng.randint(1, 7),
                        'size': size, 'derived_from': key}
-            elif k < 0.45:
+            elif k < 0.33:
+                # expansion bookkeeping: many line macros in sequence (every one must be popped again), nested multi-line
+                # expansions (the ends of the outer ones move), chains of exactly about the nesting limit
+                depth = rng.choice([2, 3, 9, 10, 11, 12])
+                # leaves are line blocks (a paragraph would swallow the invocation lines that follow it)
+                defs = ["{c0} = '%s'" % rng.choice(['# Leaf', '# Leaf\n## two', '// gone', '# Leaf\n\npara'])]
+                for i in range(1, depth):
+                    defs.append("{c%d} = '%s{c%d}%s'" % (i, rng.choice(['', '# pre\n']), i - 1, rng.choice(['', '\n# post', '\n{c0}'])))
+                body = ['{c%d}' % rng.randrange(depth) for _ in range(rng.randint(11, 24))]
+                if rng.random() < 0.5:
+                    body.insert(rng.randrange(len(body)), '\nplain paragraph\n')
+                # defined last-first: a value is expanded when it is defined, so only forward references survive as invocations
+                defs.reverse()
+                yield {'kind': 'macro', 'src': '\n'.join(defs) + '\n\n' + '\n'.join(body), 'safeMode': rng.choice([0, 0, 8, 15]), 'must_finish': True}
+            elif k < 0.5:
                 names = ['m', 'n', 'k']
                 lines = []
                 for _ in range(rng.randint(1, 3)):
                     nm = rng.choice(names)
-                    body = rng.choice(['{%s|$1 $1}', '{%s}', 'x {%s|$1}', '{%s|$1}\n{%s|$1.}', '$1 {%s|$2|$1}', '{%s=.*}{%s|$1$1}'])
+                    body = rng.choice(['{%s|$1 $1}', '{%s}', 'x {%s|$1}', '{%s|$1}\n{%s|$1.}', '$1 {%s|$2|$1}', '{%s=.*}{%s|$1$1}',
+                                       '{lf}\n{%s|$1 x}', '# h\n{lf}\n{%s|$1.}\n{lf}'])
                     body = body.replace('%s', rng.choice(names))
                     lines.append("{%s} = '%s'" % (nm, body))
+                lines.append("{lf} = '%s'" % rng.choice(['# L', '# L\n## M', '// c']))
                 for _ in range(rng.randint(1, 3)):
                     lines.append(rng.choice(['{%s|a}', '{%s}', '{%s|a|b} tail', '- {%s|a}', '.{%s|a}']) % rng.choice(names))
                 yield {'kind': 'macro', 'src': '\n'.join(lines), 'safeMode': rng.choice([0, 0, 8, 9, 15, 1])}
